@@ -778,3 +778,38 @@ func specHexVal(b byte) byte {
 //@ ensures opaque [C12.peek.value] old(viewOK(s) && viewSep(s) && onTape(s)) && result1 == nil ==> result0 == tape(old(cursor(s))) && cursor(s) == old(cursor(s)) && viewOK(s) && viewSep(s)
 //@ ensures opaque [C12.peek.tape] old(viewOK(s) && viewSep(s) && onTape(s)) && result1 == nil ==> onTape(s)
 //@ loop 1 invariant [C12.peek.tape] old(viewOK(s) && viewSep(s) && onTape(s)) ==> cursor(s) == old(cursor(s)) && onTape(s) && viewOK(s) && viewSep(s) && len(s.peek) <= old(len(s.peek)) + 1
+
+// ---------------------------------------------------------------------
+// C02, composite access (PLRM 8.2: length, get, getinterval).  Composite
+// objects are shared by reference: get returns the stored element, and
+// getinterval returns a view of the SAME array (same reference, offset moved
+// by index) -- a copy would fail the aliasing clause.
+
+//@ func bLength
+//@ ensures [C02.length.underflow] old(depth(intp)) < 1 ==> isPSErr(result, eStackunderflow) && depth(intp) == old(depth(intp))
+//@ ensures [C02.length.array] old(depth(intp)) >= 1 && isType(old(top(intp, 0)), Array) ==> result == nil && depth(intp) == old(depth(intp)) && isInt(top(intp, 0)) && asInt(top(intp, 0)) == Integer(len(old(top(intp, 0)).(Array))) && stackFrame(intp, 1)
+//@ ensures [C02.length.string] old(depth(intp)) >= 1 && isType(old(top(intp, 0)), String) ==> result == nil && depth(intp) == old(depth(intp)) && isInt(top(intp, 0)) && asInt(top(intp, 0)) == Integer(len(old(top(intp, 0)).(String))) && stackFrame(intp, 1)
+//@ ensures [C02.length.dict] old(depth(intp)) >= 1 && isType(old(top(intp, 0)), Dict) ==> result == nil && depth(intp) == old(depth(intp)) && isInt(top(intp, 0)) && asInt(top(intp, 0)) == Integer(old(len(top(intp, 0).(Dict)))) && stackFrame(intp, 1)
+//@ ensures [C02.length.type] old(depth(intp)) >= 1 && (isInt(old(top(intp, 0))) || isReal(old(top(intp, 0))) || isBool(old(top(intp, 0))) || old(top(intp, 0)) == nil) ==> isPSErr(result, eTypecheck)
+
+//@ func bGet
+//@ ensures [C02.get.underflow] old(depth(intp)) < 2 ==> isPSErr(result, eStackunderflow) && depth(intp) == old(depth(intp))
+//@ ensures [C02.get.array] old(depth(intp)) >= 2 && isType(old(top(intp, 1)), Array) && isInt(old(top(intp, 0))) && 0 <= asInt(old(top(intp, 0))) && asInt(old(top(intp, 0))) < Integer(len(old(top(intp, 1)).(Array))) ==> result == nil && depth(intp) == old(depth(intp)) - 1 && top(intp, 0) == old(top(intp, 1).(Array)[asInt(top(intp, 0))]) && stackFrame(intp, 2)
+//@ ensures [C02.get.array.range] old(depth(intp)) >= 2 && isType(old(top(intp, 1)), Array) && isInt(old(top(intp, 0))) && (asInt(old(top(intp, 0))) < 0 || asInt(old(top(intp, 0))) >= Integer(len(old(top(intp, 1)).(Array)))) ==> isPSErr(result, eRangecheck)
+//@ ensures [C02.get.array.type] old(depth(intp)) >= 2 && isType(old(top(intp, 1)), Array) && !isInt(old(top(intp, 0))) ==> isPSErr(result, eTypecheck)
+//@ ensures [C02.get.string] old(depth(intp)) >= 2 && isType(old(top(intp, 1)), String) && isInt(old(top(intp, 0))) && 0 <= asInt(old(top(intp, 0))) && asInt(old(top(intp, 0))) < Integer(len(old(top(intp, 1)).(String))) ==> result == nil && depth(intp) == old(depth(intp)) - 1 && isInt(top(intp, 0)) && asInt(top(intp, 0)) == Integer(old(top(intp, 1).(String)[asInt(top(intp, 0))])) && stackFrame(intp, 2)
+//@ ensures [C02.get.string.range] old(depth(intp)) >= 2 && isType(old(top(intp, 1)), String) && isInt(old(top(intp, 0))) && (asInt(old(top(intp, 0))) < 0 || asInt(old(top(intp, 0))) >= Integer(len(old(top(intp, 1)).(String)))) ==> isPSErr(result, eRangecheck)
+//@ ensures [C02.get.dict] old(depth(intp)) >= 2 && isType(old(top(intp, 1)), Dict) && isType(old(top(intp, 0)), Name) && old(has(top(intp, 1).(Dict), top(intp, 0).(Name))) ==> result == nil && depth(intp) == old(depth(intp)) - 1 && top(intp, 0) == old(top(intp, 1).(Dict)[top(intp, 0).(Name)]) && stackFrame(intp, 2)
+//@ ensures [C02.get.dict.undefined] old(depth(intp)) >= 2 && isType(old(top(intp, 1)), Dict) && isType(old(top(intp, 0)), Name) && !old(has(top(intp, 1).(Dict), top(intp, 0).(Name))) ==> isPSErr(result, eUndefined)
+//@ ensures [C02.get.dict.type] old(depth(intp)) >= 2 && isType(old(top(intp, 1)), Dict) && !isType(old(top(intp, 0)), Name) ==> isPSErr(result, eTypecheck)
+//@ ensures [C02.get.type] old(depth(intp)) >= 2 && (isInt(old(top(intp, 1))) || isReal(old(top(intp, 1))) || isBool(old(top(intp, 1))) || isType(old(top(intp, 1)), Name)) ==> isPSErr(result, eTypecheck)
+
+//@ define gi_ok(n, index, count) = 0 <= index && index <= n && 0 <= count && count <= n - index
+//@ func bGetinterval
+//@ ensures [C02.getinterval.underflow] old(depth(intp)) < 3 ==> isPSErr(result, eStackunderflow) && depth(intp) == old(depth(intp))
+//@ ensures [C02.getinterval.array] old(depth(intp)) >= 3 && isType(old(top(intp, 2)), Array) && isInt(old(top(intp, 1))) && isInt(old(top(intp, 0))) && gi_ok(Integer(len(old(top(intp, 2)).(Array))), asInt(old(top(intp, 1))), asInt(old(top(intp, 0)))) ==> result == nil && depth(intp) == old(depth(intp)) - 2 && isType(top(intp, 0), Array) && ref(top(intp, 0).(Array)) == ref(old(top(intp, 2)).(Array)) && off(top(intp, 0).(Array)) == off(old(top(intp, 2)).(Array)) + int(asInt(old(top(intp, 1)))) && len(top(intp, 0).(Array)) == int(asInt(old(top(intp, 0)))) && stackFrame(intp, 3)
+//@ ensures [C02.getinterval.string] old(depth(intp)) >= 3 && isType(old(top(intp, 2)), String) && isInt(old(top(intp, 1))) && isInt(old(top(intp, 0))) && gi_ok(Integer(len(old(top(intp, 2)).(String))), asInt(old(top(intp, 1))), asInt(old(top(intp, 0)))) ==> result == nil && depth(intp) == old(depth(intp)) - 2 && isType(top(intp, 0), String) && ref(top(intp, 0).(String)) == ref(old(top(intp, 2)).(String)) && off(top(intp, 0).(String)) == off(old(top(intp, 2)).(String)) + int(asInt(old(top(intp, 1)))) && len(top(intp, 0).(String)) == int(asInt(old(top(intp, 0)))) && stackFrame(intp, 3)
+//@ ensures [C02.getinterval.range] old(depth(intp)) >= 3 && isType(old(top(intp, 2)), Array) && isInt(old(top(intp, 1))) && isInt(old(top(intp, 0))) && !gi_ok(Integer(len(old(top(intp, 2)).(Array))), asInt(old(top(intp, 1))), asInt(old(top(intp, 0)))) ==> isPSErr(result, eRangecheck)
+//@ ensures [C02.getinterval.type.index] old(depth(intp)) >= 3 && isType(old(top(intp, 2)), Array) && !isInt(old(top(intp, 1))) ==> isPSErr(result, eTypecheck)
+//@ ensures [C02.getinterval.type.count] old(depth(intp)) >= 3 && isType(old(top(intp, 2)), Array) && isInt(old(top(intp, 1))) && 0 <= asInt(old(top(intp, 1))) && asInt(old(top(intp, 1))) <= Integer(len(old(top(intp, 2)).(Array))) && !isInt(old(top(intp, 0))) ==> isPSErr(result, eTypecheck)
+//@ ensures [C02.getinterval.type.obj] old(depth(intp)) >= 3 && (isInt(old(top(intp, 2))) || isReal(old(top(intp, 2))) || isBool(old(top(intp, 2))) || isType(old(top(intp, 2)), Dict) || isType(old(top(intp, 2)), Name)) ==> isPSErr(result, eTypecheck)
